@@ -52,7 +52,8 @@ use `cargo ... --offline` only, and set `CARGO_TARGET_DIR={wt}/target` and `-j6`
 present: where code talks to a device, write your own in-process fake inside your demonstration (implement the crate's
 traits such as DeviceControl / PayloadStream / IPort-like device closures, or a byte-array memory), as a test file under the
 crate's `tests/` directory or as a `#[cfg(test)]`-free small example program; the demonstration may use only crates already
-used by the repository.
+used by the repository.  Do NOT use `git stash` (all scratch worktrees share one stash list): switch between the changed and
+the unchanged tree with `git diff > file` and `git apply -R file` / `git apply file`.
 
 THE PROPERTY ({prop['id']}: {prop['title']})
 
